@@ -74,8 +74,11 @@ def gen_script(rng, t, nops=None, faults=False, misuse=False):
             continue
         if t['kind'] == 'coll' and rng.random() < 0.04:
             # memory_pool_collection::reserve(node_size, capacity): whole nodes of the bucket, well inside a block
+            # (documented requirement: capacity below next_capacity(); kept below half a block so that fences and padding fit as well)
             b = max(size, 1 if t['pt'] == 'small' else 8); b = 1 << (b - 1).bit_length()
-            lines.append('rs %d %d' % (size, b * rng.choice([1, 2, 3, 5, 8]) + (32 if t['pt'] == 'small' else 0)))
+            cap = b * rng.choice([1, 2, 3, 5, 8]) + (32 if t['pt'] == 'small' else 0)
+            if cap <= (t['bs'] - 16) // 2:
+                lines.append('rs %d %d' % (size, cap))
             continue
         if r < 0.38:
             lines.append('%s %d %d' % (rng.choice(['an', 'an', 'an', 'tn']), size, al))
